@@ -43,7 +43,16 @@ var solvers = []solverDef{
 func (o *Obligation) smtText(extra []string) string {
 	var sb strings.Builder
 	g := o.Gen
-	sb.WriteString(g.preamble())
+	if o.Cover {
+		// vacuity guards are satisfiability queries: global quantified axioms are left out
+		// (they only constrain uninterpreted functions) so that solvers can build a model
+		save := g.axioms
+		g.axioms = nil
+		sb.WriteString(g.preamble())
+		g.axioms = save
+	} else {
+		sb.WriteString(g.preamble())
+	}
 	for _, f := range g.facts[:o.NFacts] {
 		sb.WriteString("(assert " + f + ")\n")
 	}
